@@ -112,6 +112,64 @@ def _krr(case, kernel, alpha):
     return KernelRidge(alpha=alpha, kernel=kernel, **case["params"])
 
 
+# --------------------------------------------------------------------------------- presentations
+# The same numerical values handed to the API in different containers / dtypes / memory layouts.
+# case["present"] = {"train": kind, "new": kind}; absent = float64 C-ordered ndarray everywhere.
+# The model, the oracle's reference routes (precomputed kernel, PCovR, explicit normaliser) and
+# the numpy mirror always work on the float64 VALUES, so a presentation-dependent answer shows.
+TRAIN_PRESENT = ["int64", "int32", "int64", "list", "fortran", "strided", "f32"]
+NEW_PRESENT = ["f64", "f64", "list", "fortran", "strided", "f32new"]
+
+
+def _present(A, kind):
+    A = np.asarray(A, float)
+    if kind in (None, "f64"):
+        return A
+    if kind in ("int64", "int32"):
+        B = A.astype(kind)
+        assert np.array_equal(B.astype(float), A), "integer presentation of non-integer values"
+        return B
+    if kind in ("f32", "f32new"):
+        B = A.astype(np.float32)
+        assert np.array_equal(B.astype(float), A), "float32 presentation of values not representable"
+        return B
+    if kind == "list":
+        return A.tolist()
+    if kind == "fortran":
+        return np.asfortranarray(A)
+    if kind == "strided":
+        big = np.zeros((2 * A.shape[0], 2 * A.shape[1] + 1))
+        big[::2, 1::2] = A
+        return big[::2, 1::2]
+    raise ValueError(kind)
+
+
+def gen_present_case(rng, quick):
+    """a case whose training X and / or new samples are NOT float64 C-ordered ndarrays"""
+    c = gen_case(rng, quick)
+    tp = rng.choice(TRAIN_PRESENT)
+    if c["kernel"] == "precomputed" and tp in ("int64", "int32", "f32"):
+        tp = rng.choice(["list", "fortran", "strided"])      # a real-valued kernel matrix is passed
+    X = np.array(c["X"], float)
+    if tp in ("int64", "int32"):
+        # integer-valued training data (counts, grid indices, one-hot codes ...); new samples stay real
+        X = np.round(2.0 * X)
+        if c["base_kernel"] == "sigmoid":
+            X = np.clip(X, -2, 2)
+        c["X"] = X.tolist()
+    elif tp == "f32":
+        c["X"] = X.astype(np.float32).astype(float).tolist()
+    nw = rng.choice(NEW_PRESENT)
+    if c["kernel"] == "precomputed" and nw == "f32new":
+        nw = "list"
+    if nw == "f32new":
+        for nd in c["news"]:
+            if nd["Xv"] is not None:
+                nd["Xv"] = np.array(nd["Xv"], np.float32).astype(float).tolist()
+    c["present"] = dict(train=tp, new=nw)
+    return c
+
+
 def build(case, kernel=None, center=None, Xfit=None, regr_kernel_data=None):
     """Construct the estimator and its fit arguments.  `kernel`/`center`/`Xfit` override the
     case (used by the oracle for the precomputed / explicit-normalizer equivalents)."""
@@ -123,6 +181,8 @@ def build(case, kernel=None, center=None, Xfit=None, regr_kernel_data=None):
     Yfit = Y[:, 0] if case["y1d"] else Y
     if Xfit is None:
         Xfit = kern(case, X) if kernel == "precomputed" else X
+        if kernel == case["kernel"] and case.get("present"):
+            Xfit = _present(Xfit, case["present"]["train"])     # only the case's own route is presented
     reg = case["regressor"]
     W = None
     if reg == "none":
@@ -172,11 +232,17 @@ def observe(case, est, Xfit, Yfit, W):
         Xarg = kern(case, Xv, case["X"]) if case["kernel"] == "precomputed" else Xv
         if case["kernel"] == "precomputed" and tag == "train":
             Xarg = Xfit
+        elif case.get("present"):
+            # the training set is passed again the way it was passed to fit; the f32new
+            # presentation of a precomputed kernel block is never generated
+            Xarg = _present(Xarg, case["present"]["train"] if tag == "train" else case["present"]["new"])
         Yarg = Yv[:, 0] if case["y1d"] else Yv
         for name, f in (("T", lambda: est.transform(Xarg)), ("pred", lambda: est.predict(Xarg)),
                         ("score", lambda: est.score(Xarg, Yarg))):
             if name == "score" and case["kernel"] == "precomputed" and tag != "train":
                 continue            # the API has no way to pass K_VV for a precomputed kernel
+            if name == "score" and tag != "train" and (case.get("present") or {}).get("new") == "f32new":
+                continue            # K_VV = k(Xv, Xv) of float32 samples is evaluated in single precision
             try:
                 r = f()
                 o[name] = float(r) if name == "score" else as2d(r, v).tolist()
@@ -521,8 +587,10 @@ def gen_history(rng, quick):
     return dict(stages=stages, kinds=kinds)
 
 
-def _fresh_vs_refit(case, rec, fresh):
-    """refit = fresh fit, on the implementation: the object with a past against a new one"""
+def _same_as_reference(case, rec, fresh, key="refit", what="after a refit", ref="a fresh estimator with the same "
+                       "arguments and data", rtol=1e-7, atol=1e-10):
+    """two runs of the implementation that must agree: the object with a past against a new one
+    (refit = fresh fit), or a presentation of the data against the float64 ndarray presentation"""
     msgs = []
     if "error" in fresh:
         return msgs
@@ -530,23 +598,22 @@ def _fresh_vs_refit(case, rec, fresh):
                   ("pky_", lambda r: np.array(r["pky"])),
                   ("pty_^T pty_", lambda r: np.array(r["pty"]).T @ np.array(r["pty"])),
                   ("ptk_^T ptk_", lambda r: np.array(r["ptk"]).T @ np.array(r["ptk"]))):
-        if not _close(f(rec), f(fresh), 1e-7, 1e-10):
-            msgs.append(("refit_attr", "after a refit %s differs from that of a fresh estimator with the same "
-                         "arguments and data (max dev %.3g)" % (nm, float(np.max(np.abs(f(rec) - f(fresh)))))))
+        if not _close(f(rec), f(fresh), rtol, atol):
+            msgs.append((key + "_attr", "%s %s differs from that of %s (max dev %.3g)" % (
+                what, nm, ref, float(np.max(np.abs(f(rec) - f(fresh)))))))
     for o, q in zip(rec["news"], fresh["news"]):
         for nm, label in (("T", "transform"), ("pred", "predict"), ("score", "score")):
             if nm not in o or nm not in q:
-                if (nm in o) != (nm in q):
-                    msgs.append(("refit_raises", "%s on a %s set: refitted object %s, fresh object %s" % (
-                        label, o["tag"], o.get(nm + "_error", "returns"), q.get(nm + "_error", "returns"))))
+                if (nm + "_error" in o) != (nm + "_error" in q):
+                    msgs.append((key + "_raises", "%s on a %s set: %s %s, %s %s" % (
+                        label, o["tag"], what, o.get(nm + "_error", "returns"), ref, q.get(nm + "_error", "returns"))))
                 continue
             a, b = np.array(o[nm], float), np.array(q[nm], float)
             if nm == "T":
                 a, b = a @ a.T, b @ b.T
-            if not _close(a, b, 1e-7, 1e-10):
-                msgs.append(("refit_" + nm, "%s on a %s set of %d samples after a refit differs from a fresh "
-                             "estimator with the same arguments and data (max dev %.3g)" % (
-                                 label, o["tag"], o["v"], float(np.max(np.abs(a - b))))))
+            if not _close(a, b, rtol, atol):
+                msgs.append((key + "_" + nm, "%s on a %s set of %d samples %s differs from %s (max dev %.3g)" % (
+                    label, o["tag"], o["v"], what, ref, float(np.max(np.abs(a - b))))))
     return msgs
 
 
@@ -601,7 +668,7 @@ def run_history(hist, probes=None):
             msgs = oracle(case, rec, est, info) + extra
             if si > 0 and info["skip"] is None:
                 fresh, _ = run_impl(case)
-                msgs = msgs + _fresh_vs_refit(case, rec, fresh)
+                msgs = msgs + _same_as_reference(case, rec, fresh)
             if not ever_centred:
                 # machine (center_on_without_refit): center switched on without a refit on an
                 # object that has no centerer_ -> the three methods raise AttributeError
@@ -721,3 +788,37 @@ def guard_expected_accept(g, o):
     if g["reg"] not in ("none", "pre", "krr_ok", "fit_ok"):
         return False
     return g["k"] is None or 0 <= g["k"] <= g["n"]
+
+
+def run_present(case):
+    """A presentation case: (rec, info, msgs).  int / list / Fortran / strided / float32-new-sample
+    presentations are exact re-presentations of float64 values and go through the whole pipeline
+    (Coq single-fit check, five equivalences) plus a comparison with the float64 ndarray
+    presentation.  A float32 TRAINING matrix makes sklearn evaluate the kernel in single precision
+    (check_pairwise_arrays keeps float32 when both arguments are float32): only the comparison with
+    the float64 presentation is made, with a single-precision tolerance, on well-conditioned fits."""
+    rec, est = run_impl(case)
+    if "error" in rec:
+        return rec, None, oracle(case, rec, None, None)
+    info = mirror(case, rec)
+    plain = {k: v for k, v in case.items() if k != "present"}
+    ref, _ = run_impl(plain)
+    pres = "X as %s, new samples as %s" % (case["present"]["train"], case["present"]["new"])
+    if case["present"]["train"] == "f32":
+        msgs = oracle(case, rec, est, dict(info, skip="f32_training"))
+        K = info["Kraw"] if not case["center"] else info["K"]
+        lam = np.linalg.eigvalsh((info["Kt"] + info["Kt"].T) / 2)[::-1]
+        k, n = case["k"], case["n"]
+        well = (info["skip"] is None and info["n_dead"] == 0 and lam[k - 1] > 1e-2 * lam[0]
+                and (k == n or lam[k - 1] - lam[k] > 1e-2 * lam[0]) and np.linalg.cond(K) < 1e3)
+        if well and "error" not in ref:
+            msgs = msgs + _same_as_reference(case, rec, ref, key="present", what="with " + pres,
+                                             ref="the float64 ndarray presentation of the same values",
+                                             rtol=2e-3, atol=1e-5)
+        info = dict(info, skip="f32_training" if well else "f32_training_illconditioned")
+        return rec, info, msgs
+    msgs = oracle(case, rec, est, info)
+    if info["skip"] is None and "error" not in ref:
+        msgs = msgs + _same_as_reference(case, rec, ref, key="present", what="with " + pres,
+                                         ref="the float64 ndarray presentation of the same values")
+    return rec, info, msgs
